@@ -940,7 +940,16 @@ func guidText(l *local, f ref.Fields) {
 					})
 				}
 			}
-			_ = okParse
+			if p != nil && okParse {
+				// the GUID handed out is the caller's own value: re-using it (overwriting its fields, as FromRawBytes
+				// on it does) must not reach what a later parse of the same text returns
+				p.A, p.B, p.C, p.D, p.E = ^p.A, ^p.B, ^p.C, ^p.D, p.E^0xFFFFFFFFFFFF
+				var again *guid.GUID
+				pan, msg, where = vf.Try(func() { again, err = fm.from(cs.in) })
+				l.Check("C13/guid/FromFormat"+L+"/"+cs.name+"/parse-after-overwriting-an-earlier-result", !pan && err == nil && again != nil && sameFields(again, f), func() string {
+					return fmt.Sprintf("guid.FromFormat%s(%q) parsed, the returned GUID overwritten by the caller, the same text parsed again = %s err=%v panic=%v %s %s; want %s", L, cs.in, gstr(again), err, pan, msg, where, fstr(f))
+				})
+			}
 		}
 	}
 }
